@@ -41,7 +41,13 @@ const (
 func binConfig(o gwOpts) gwproc.Config {
 	w := W()
 	c := gwproc.Config{}
-	c.Set("Server", "Tls", "disable").Set("Server", "GatewayAddress", "gw.example.test").
+	if o.TLS {
+		c18Files()
+		c.Set("Server", "CertFile", c18Cert).Set("Server", "KeyFile", c18Key)
+	} else {
+		c.Set("Server", "Tls", "disable")
+	}
+	c.Set("Server", "GatewayAddress", "gw.example.test").
 		Set("Server", "Hosts", o.Hosts).Set("Server", "HostSelection", o.HostSelection).
 		Set("Server", "SessionKey", key32a).Set("Server", "SessionEncryptionKey", key32b)
 	if o.SendBuf > 0 {
@@ -97,7 +103,7 @@ func binFor(o gwOpts, user string) (*gwproc.Inst, gwc.Target, error) {
 		}
 		binPool[key] = in
 	}
-	t := gwc.Target{Addr: in.Addr}
+	t := gwc.Target{Addr: in.Addr, TLS: in.TLS}
 	if !o.TokenAuth {
 		t.Headers = [][2]string{{"Authorization", "NTLM " + authsvc.B64("ok:"+user)}}
 	}
